@@ -99,7 +99,7 @@ func main() {
 	rng := gen.NewRng(*seed, 14)
 	var pool []*entry
 	for len(pool) < *nq {
-		t := gen.RandomTree(rng, 1+rng.Intn(4))
+		t := gen.RandomTreeTop(rng, 1+rng.Intn(4))
 		q := gen.Spell(rng, t.Print(), rng.Intn(3))
 		if rng.Chance(1, 6) {
 			q = gen.FieldQuery(rng)
